@@ -702,4 +702,46 @@ theorem Dy.ofInt_lt (i j : Int) : Dy.lt (Dy.ofInt i) (Dy.ofInt j) = decide (i < 
   simp [Dy.ofInt, Dy.lt]
 
 
+/-! ## asort sources -/
+
+theorem mem_occupied (sl : List (Option (Val F))) (k j : Nat) (v : Val F) :
+    (j, v) ∈ occupied sl k ↔ k ≤ j ∧ sl[j - k]? = some (some v) := by
+  induction sl generalizing k with
+  | nil => simp [occupied]
+  | cons o r ih =>
+    cases o with
+    | none =>
+      simp only [occupied, ih]
+      constructor
+      · rintro ⟨h1, h2⟩
+        refine ⟨by omega, ?_⟩
+        have : j - k = (j - (k + 1)) + 1 := by omega
+        rw [this, List.getElem?_cons_succ]; exact h2
+      · rintro ⟨h1, h2⟩
+        by_cases hjk : j = k
+        · subst hjk; simp at h2
+        · refine ⟨by omega, ?_⟩
+          have : j - k = (j - (k + 1)) + 1 := by omega
+          rw [this, List.getElem?_cons_succ] at h2; exact h2
+    | some w =>
+      simp only [occupied, List.mem_cons, ih, Prod.mk.injEq]
+      constructor
+      · rintro (⟨rfl, rfl⟩ | ⟨h1, h2⟩)
+        · simp
+        · refine ⟨by omega, ?_⟩
+          have : j - k = (j - (k + 1)) + 1 := by omega
+          rw [this, List.getElem?_cons_succ]; exact h2
+      · rintro ⟨h1, h2⟩
+        by_cases hjk : j = k
+        · subst hjk; simp at h2; exact Or.inl ⟨rfl, h2.symm⟩
+        · refine Or.inr ⟨by omega, ?_⟩
+          have : j - k = (j - (k + 1)) + 1 := by omega
+          rw [this, List.getElem?_cons_succ] at h2; exact h2
+
+theorem userCmp3_eq_cmp' (P : Params F) (cfg : Cfg) (a b : Val F) (ha : a.scalar = true) (hb : b.scalar = true) :
+    userCmp3 P cfg a b = cmpVal P cfg .none a b := by
+  obtain ⟨n, ht, hn⟩ := scalar_facts0 P cfg a b ha hb
+  simp only [userCmp3, evalOp, hn, Op.test, Op.hint]
+  rcases ht with rfl | rfl | rfl <;> simp
+
 end Hawk.Cmp
